@@ -294,7 +294,7 @@ def _args(rng, kind, w, n, sg):
         t, a = fmt_value(rng, w, n)
         r = f"{rng.choice(FMT_TRAITS)} {rng.choice(FMT_FLAGS)} {rng.choice(['-', '-', 0, 1, 5, 12, 40, rng.randrange(0, 41), 255])} {hx(a)}"
     elif k in ("tof32", "tof64"):
-        t, a = int_case(rng, w, n, FLOAT_FMT["f" + k[3:]][0])
+        t, a = int_case(rng, w, n, "f" + k[3:], sg)
         r = hx(a)
     elif k in ("fromf32", "fromf64"):
         t, f = float_case(rng, "f" + k[5:], W)
